@@ -227,6 +227,8 @@ def plain_case(rng, op, kind, n, tests_none=False, **ann):
         c = {"op": op, "kind": "bytes", "ftype": kind, "col": [x.hex() for x in col]}
         if op == "isin_plain":
             ts = [rng.choice(vals) for _ in range(rng.randrange(0, 4))] + [val() for _ in range(rng.randrange(0, 3))]
+            if rng.random() < 0.25:      # a large test set: numpy switches from its per-value loop to the sort-based algorithm
+                ts += [val() for _ in range(rng.randrange(15, 60))]
             ts = [t.hex() for t in ts] + [None] * rng.choice([0, 0, 1])
             rng.shuffle(ts)
             c["tests"] = None if tests_none else ts
@@ -241,7 +243,10 @@ def plain_case(rng, op, kind, n, tests_none=False, **ann):
         c = {"op": op, "kind": "int", "ftype": kind, "col": col}
         if op == "isin_plain":
             ts = [rng.choice(vals) for _ in range(rng.randrange(0, 4))] + [rng.randint(lo, hi) for _ in range(rng.randrange(0, 3))]
-            ts += [None] * rng.choice([0, 0, 1])
+            if rng.random() < 0.25:      # a large test set (see above); wide range so that most column values are NOT members
+                ts += [rng.randint(lo - 1000, hi + 1000) if kind not in ("uint8", "bool", "categorical", "int8") else
+                       rng.randint(lo, hi) for _ in range(rng.randrange(15, 60))]
+            ts += [None] * rng.choice([0, 0, 0, 1])
             rng.shuffle(ts)
             c["tests"] = None if tests_none else ts
     if op == "isin_plain":
